@@ -8,7 +8,7 @@ set -u
 ID="$1"; CRATES="$2"; DEMO="$3"; shift 3
 PID="${ID%%-*}"
 B=/tmp/seed/$ID; WT=$B/wt; LOG=$B/eval.log
-export CARGO_TARGET_DIR=/tmp/seed/target
+export CARGO_TARGET_DIR=${SEED_TARGET:-/tmp/seed/target-eval}
 : > "$LOG"
 cd "$WT" || exit 2
 echo "== git status" >> "$LOG"; git status --short >> "$LOG"
